@@ -199,7 +199,7 @@ def validate(res: Result, out: list) -> dict:
 def run(tier: str) -> int:
     res = Result('C15', tier)
     cfg = f'MC_Hydraulics_{tier}.cfg'
-    r = tlc.run_tlc('Hydraulics', cfg, workers=1, timeout=900)
+    r = tlc.run_tlc('Hydraulics', cfg, workers=1, timeout=2400)
     tlc.check_mc(r, cfg, ['Crash', 'Deplete', 'DepleteDone', 'Inflate', 'InflateDone'])
     if r['violated']:
         raise MachineryFailure(f'Hydraulics.tla violates {r["violated"]}')
